@@ -1115,7 +1115,7 @@ fn build_parsers_input(
     })
 }
 
-fn named_runtypes(named_schemas: &[NamedSchema], ctx: &mut PrintContext) -> Expr {
+fn named_runtypes(named_schemas: &[NamedSchema], ctx: &mut PrintContext) -> Result<Expr> {
     let mut validator_exprs: Vec<(RuntypeUUID, Expr)> = vec![];
     for named_schema in named_schemas {
         let validator = print_runtype(&named_schema.schema, named_schemas, ctx);
@@ -1127,7 +1127,21 @@ fn named_runtypes(named_schemas: &[NamedSchema], ctx: &mut PrintContext) -> Expr
         .filter(|(name, _)| !ctx.inlined.contains(name))
         .collect();
 
-    Expr::Object(ObjectLit {
+    // printed names are lossy (`Foo<A>` and a plain `Foo_A`, `a-b.ts` and `a_b.ts`): two types that
+    // print alike would share one key of the emitted table, the second silently replacing the first
+    let mut printed_names: BTreeMap<String, RuntypeUUID> = BTreeMap::new();
+    for (key, _) in &validator_exprs {
+        let printed = ctx.print_rt_name(key);
+        if let Some(other) = printed_names.insert(printed.clone(), key.clone())
+            && other != *key
+        {
+            return Err(anyhow!(
+                "Two different types are emitted under the same name: {printed}"
+            ));
+        }
+    }
+
+    Ok(Expr::Object(ObjectLit {
         span: DUMMY_SP,
         props: validator_exprs
             .into_iter()
@@ -1145,7 +1159,7 @@ fn named_runtypes(named_schemas: &[NamedSchema], ctx: &mut PrintContext) -> Expr
                 )
             })
             .collect(),
-    })
+    }))
 }
 
 impl ParserExtractResult {
@@ -1170,7 +1184,7 @@ impl ParserExtractResult {
 
         let build_named_parsers_input = const_decl(
             "namedRuntypes",
-            named_runtypes(&named_schemas, &mut hoisted),
+            named_runtypes(&named_schemas, &mut hoisted)?,
         );
 
         let mut sorted_direct_hoisted_values = hoisted.hoisted.into_values().collect::<Vec<_>>();
